@@ -556,6 +556,12 @@ func opExport(h *Hist) {
 		if strings.HasSuffix(name, "Slice") && name != "Slice" && name != "NativeSlice" {
 			own = []string{"C14"}
 		}
+		if name == "Slice" {
+			own = []string{"C13", "C05"} // Slice is one of C05's observers
+		}
+		if name == "Dict" {
+			own = []string{"C13", "C06"}
+		}
 		if derived {
 			own = []string{"C19"}
 		}
@@ -591,6 +597,9 @@ func opMutateNative(h *Hist) {
 		return
 	}
 	nv := h.natives[h.d.Draw("pick-native", len(h.natives))]
+	if nv.Frozen {
+		return
+	}
 	h.begin("native-mutation", "C13")
 	m := natMutation{action: h.d.Draw("nat-action", 3), key: keyPool[h.d.Draw("key", len(keyPool))]}
 	for i, d := 0, h.d.Draw("nat-depth", 3); i <= d; i++ {
@@ -664,6 +673,7 @@ func opImport(h *Hist) {
 		}
 		return out
 	}
+	treeAliased = false
 	width := h.tail("import-width", 5, 60)
 	if h.d.Draw("import-huge", 60) == 0 {
 		width = []int{511, 513, 1003, 1100}[h.d.Draw("import-huge-n", 4)]
@@ -795,6 +805,10 @@ func opImport(h *Hist) {
 	nv := reuse
 	if nv == nil {
 		nv = h.newNative(src, copyNative(src), name+" source", false)
+		nv.Frozen = treeAliased
+		if treeAliased {
+			h.counters["probe:import-of-a-go-value-sharing-structure-inside"]++
+		}
 	}
 	for _, x := range sortedNodes(reach(r)) {
 		if x.Group == h.group {
